@@ -62,4 +62,146 @@ theorem layoutOf_perm (o5 ri : Nat) (ho : o5 ≤ 4) (hr : ri ≤ 5) :
 /-- non-vacuity: the default layout `(o_dim, ri_dim) = (2, -1)` is `(N, C, 6, H, W, 2)` -/
 example : get_dimensions6 2 (-1) = some (2, 5, 3, 4) ∧ layout6 2 5 = [.N, .C, .O, .H, .W, .RI] := by decide
 
+/-! ### skip / include masks and prefix consistency: properties of the level loop
+
+Generic in the scalar type; no arithmetic is used, only the shape of the loop. -/
+
+variable {R : Type} [Add R] [Sub R] [Mul R] [OfNat R 0]
+
+/-- level ≥ 2: whether or not the band-pass is skipped, the low-pass handed to the next level is the same -/
+theorem fwdJ2_skip_ll (s : R) (h0a h1a h0b h1b : List R) (x : Img R) (r r' : Img R × Option (List (Cplx R)))
+    (h : fwdJ2 s h0a h1a h0b h1b true x = some r) (h' : fwdJ2 s h0a h1a h0b h1b false x = some r') :
+    r.1 = r'.1 ∧ r.2 = none ∧ r'.2 ≠ none := by
+  unfold fwdJ2 at h h'
+  cases hlo : rowdfilt h0b h0a false x with
+  | none => simp [hlo] at h
+  | some lo =>
+    cases hll : coldfilt h0b h0a false lo with
+    | none => simp [hlo, hll] at h
+    | some ll =>
+      simp only [hlo, hll, Option.bind_eq_bind, Option.bind_some, if_true] at h
+      simp only [hlo, hll, Option.bind_eq_bind, Option.bind_some, Bool.false_eq_true, if_false] at h'
+      cases hhi : rowdfilt h1b h1a true x with
+      | none => simp [hhi] at h'
+      | some hi =>
+        cases hlh : coldfilt h1b h1a true lo with
+        | none => simp [hhi, hlh] at h'
+        | some lh =>
+          cases hhl : coldfilt h0b h0a false hi with
+          | none => simp [hhi, hlh, hhl] at h'
+          | some hl =>
+            cases hhh : coldfilt h1b h1a true hi with
+            | none => simp [hhi, hlh, hhl, hhh] at h'
+            | some hh =>
+              simp only [hhi, hlh, hhl, hhh, Option.bind_some, Option.some.injEq] at h'
+              simp only [Option.some.injEq] at h
+              subst h; subst h'
+              simp
+
+/-- level 1 likewise (it never raises) -/
+theorem fwdJ1_skip_ll (s : R) (sym : Bool) (h0 h1 : List R) (x : Img R) :
+    (fwdJ1 s sym h0 h1 true x).1 = (fwdJ1 s sym h0 h1 false x).1 ∧ (fwdJ1 s sym h0 h1 true x).2 = none ∧
+      (fwdJ1 s sym h0 h1 false x).2 ≠ none := by
+  simp [fwdJ1]
+
+/-- **skip_hps**: skipping levels replaces exactly those levels by placeholders and leaves the final
+low-pass, every requested scale and every other level unchanged — for every mask, every depth. -/
+theorem loop_skip (s : R) (f : FwdFilters R) (sks incl : List Bool) (low : Img R)
+    (r r' : Img R × List (Option (List (Cplx R))) × List (Option (Img R)))
+    (h : dtcwtFwdLoop s f sks incl low = some r)
+    (h' : dtcwtFwdLoop s f (sks.map fun _ => false) incl low = some r') :
+    r.1 = r'.1 ∧ r.2.2 = r'.2.2 ∧
+      r.2.1 = List.zipWith (fun (sk : Bool) (hp : Option (List (Cplx R))) => if sk then none else hp) sks r'.2.1 := by
+  induction sks generalizing incl low r r' with
+  | nil =>
+    simp only [dtcwtFwdLoop, List.map_nil, Option.some.injEq] at h h'
+    subst h; subst h'; simp
+  | cons sk rest ih =>
+    simp only [dtcwtFwdLoop, List.map_cons, List.drop_one, List.headD_eq_head?_getD] at h h'
+    cases h1 : fwdJ2 s f.h0a f.h1a f.h0b f.h1b sk (extendMult4 low) with
+    | none => simp [h1] at h
+    | some p =>
+      cases h1' : fwdJ2 s f.h0a f.h1a f.h0b f.h1b false (extendMult4 low) with
+      | none => simp [h1'] at h'
+      | some p' =>
+        simp only [h1, Option.bind_eq_bind, Option.bind_some] at h
+        simp only [h1', Option.bind_eq_bind, Option.bind_some] at h'
+        have hll : p.1 = p'.1 ∧ p.2 = (if sk then none else p'.2) := by
+          cases sk with
+          | true =>
+            have := fwdJ2_skip_ll s f.h0a f.h1a f.h0b f.h1b (extendMult4 low) p p' h1 h1'
+            exact ⟨this.1, by simpa using this.2.1⟩
+          | false =>
+            rw [h1] at h1'; simp only [Option.some.injEq] at h1'; subst h1'; simp
+        cases h2 : dtcwtFwdLoop s f rest incl.tail p.1 with
+        | none => simp [h2] at h
+        | some q =>
+          cases h2' : dtcwtFwdLoop s f (rest.map fun _ => false) incl.tail p'.1 with
+          | none => simp [h2'] at h'
+          | some q' =>
+            simp only [h2, Option.bind_some, Option.some.injEq] at h
+            simp only [h2', Option.bind_some, Option.some.injEq] at h'
+            rw [← hll.1] at h2'
+            have := ih incl.tail p.1 q q' h2 h2'
+            subst h; subst h'
+            simp only [List.zipWith_cons_cons]
+            refine ⟨this.1, ?_, ?_⟩
+            · simp [this.2.1, hll.1]
+            · rw [this.2.2, hll.2]
+
+/-- **include_scale** only *selects* low-passes: the final low-pass and all band-pass levels do not depend
+on the include mask, and each returned scale is either absent or the low-pass after that level. -/
+theorem loop_include (s : R) (f : FwdFilters R) (sks incl incl' : List Bool) (low : Img R)
+    (r r' : Img R × List (Option (List (Cplx R))) × List (Option (Img R)))
+    (h : dtcwtFwdLoop s f sks incl low = some r) (h' : dtcwtFwdLoop s f sks incl' low = some r') :
+    r.1 = r'.1 ∧ r.2.1 = r'.2.1 := by
+  induction sks generalizing incl incl' low r r' with
+  | nil =>
+    simp only [dtcwtFwdLoop, Option.some.injEq] at h h'
+    subst h; subst h'; simp
+  | cons sk rest ih =>
+    simp only [dtcwtFwdLoop, List.drop_one, List.headD_eq_head?_getD] at h h'
+    cases h1 : fwdJ2 s f.h0a f.h1a f.h0b f.h1b sk (extendMult4 low) with
+    | none => simp [h1] at h
+    | some p =>
+      simp only [h1, Option.bind_eq_bind, Option.bind_some] at h h'
+      cases h2 : dtcwtFwdLoop s f rest incl.tail p.1 with
+      | none => simp [h2] at h
+      | some q =>
+        cases h2' : dtcwtFwdLoop s f rest incl'.tail p.1 with
+        | none => simp [h2'] at h'
+        | some q' =>
+          simp only [h2, Option.bind_some, Option.some.injEq] at h
+          simp only [h2', Option.bind_some, Option.some.injEq] at h'
+          have := ih incl.tail incl'.tail p.1 q q' h2 h2'
+          subst h; subst h'
+          exact ⟨this.1, by simp [this.2]⟩
+
+/-- **prefix consistency**: the first levels of a deeper transform are the shallower transform — the loop
+over `sks1 ++ sks2` first does exactly what the loop over `sks1` does, and continues from its low-pass. -/
+theorem loop_prefix (s : R) (f : FwdFilters R) (sks1 sks2 : List Bool) (low : Img R)
+    (r : Img R × List (Option (List (Cplx R))) × List (Option (Img R)))
+    (h : dtcwtFwdLoop s f (sks1 ++ sks2) [] low = some r) :
+    ∃ r1 r2, dtcwtFwdLoop s f sks1 [] low = some r1 ∧ dtcwtFwdLoop s f sks2 [] r1.1 = some r2 ∧
+      r.1 = r2.1 ∧ r.2.1 = r1.2.1 ++ r2.2.1 := by
+  induction sks1 generalizing low r with
+  | nil =>
+    simp only [List.nil_append] at h
+    exact ⟨(low, [], []), r, by simp [dtcwtFwdLoop], h, rfl, by simp⟩
+  | cons sk rest ih =>
+    simp only [List.cons_append, dtcwtFwdLoop, List.drop_one, List.headD_eq_head?_getD] at h
+    cases h1 : fwdJ2 s f.h0a f.h1a f.h0b f.h1b sk (extendMult4 low) with
+    | none => simp [h1] at h
+    | some p =>
+      simp only [h1, Option.bind_eq_bind, Option.bind_some, List.tail_nil] at h
+      cases h2 : dtcwtFwdLoop s f (rest ++ sks2) [] p.1 with
+      | none => simp [h2] at h
+      | some q =>
+        simp only [h2, Option.bind_some, Option.some.injEq] at h
+        obtain ⟨r1, r2, e1, e2, e3, e4⟩ := ih p.1 q h2
+        refine ⟨(r1.1, p.2 :: r1.2.1, none :: r1.2.2), r2, ?_, e2, ?_, ?_⟩
+        · simp [dtcwtFwdLoop, h1, e1]
+        · subst h; exact e3
+        · subst h; simp [e4]
+
 end WV.C12
